@@ -115,6 +115,16 @@ impl Region {
             std::ptr::write_bytes(self.mem.add(a), FILL_FRESH, granted);
             std::ptr::write_bytes(self.mem.add(a + granted), FILL_GAP, GAP);
         }
+        // the gap fill is the harness's own write: mirror it into the part of the shadow that already exists (the shadow
+        // may have been extended over the first bytes of the gap by an observation taken before this allocation)
+        {
+            let mut sh = self.shadow.borrow_mut();
+            let lo = next.saturating_sub(FIRST);
+            let hi = (a - FIRST).min(sh.len());
+            if lo < hi {
+                sh[lo..hi].fill(FILL_GAP);
+            }
+        }
         self.next.set(a + granted);
         self.sync_shadow_tail();
         self.log.borrow_mut().push(BaseEv::Alloc { size, align, addr: a, granted });
